@@ -22,6 +22,22 @@ CLAIMED = {
             "Trusted: TLC, the rewrite rules R1-R4 as the definition of a valid encoding, the independent byte "
             "encoder harness/enc.py and projection harness/proj.py.",
             "DESIGN.md 3.3, 5/C02"),
+    "C04": ("TLA+ TdmsData: TLC checks the algorithm model of read_raw_data_for_channel/_read_slice/"
+            "read_channel_chunk_for_index against Python/NumPy indexing semantics over all shapes x requests; every "
+            "shape with all its requests replayed into lazily opened and eagerly read files",
+            "Exhaustive model checking within bounds (<=3-4 segments, chunk sizes <=3, <=3 chunks, truncated final "
+            "chunk, channel absent per segment; all windows, slices, indices) plus spec->code conformance of every "
+            "shape x request, lazy and eager, over random types/layouts/byte orders.",
+            "Trusted: TLC, TdmsData.AbsWindow/SliceIndices/AbsIndex as transcription of Python semantics, encoder.",
+            "DESIGN.md 3.4, 5/C04"),
+    "C19": ("TLA+ TdmsData.FootprintBounded checked by TLC; traces of real stream reads (recording stream under "
+            "TdmsFile.open) validated by TLC against Trace_Footprint.tla (code->spec trace validation)",
+            "Model checking of the algorithm model's footprint plus trace validation: for every enumerated shape, all "
+            "windows and integer indices are executed on one open file and each step's (position,size) reads must "
+            "lie in the chunks overlapping the request (own bytes only for contiguous layout) plus one 4-byte tag "
+            "per segment touched; an index into the cached chunk must fetch nothing.",
+            "Trusted: TLC, byte layout logged by the independent encoder, the recording stream.",
+            "DESIGN.md 3.4, 5/C19"),
     "C15": ("TLA+ TdmsSegments: byte order is an attribute of the encoding only; TLC enumerates per-segment byte-order "
             "assignments, each file replayed in 4 byte-order variants against the one specification view",
             "Model checking + spec->code conformance: all 2^k per-segment byte-order assignments (k<=2) over "
